@@ -298,11 +298,6 @@ def encode_function(src: str, functions: dict | None = None, env=None) -> str:
     if env is None:
         return f
     closure, globs = env
-    assigned = {t.id for n in ast.walk(fn) if isinstance(n, (ast.Assign, ast.For))
-                for t in ast.walk(n.targets[0] if isinstance(n, ast.Assign) else n.target) if isinstance(t, ast.Name)}
-    if assigned & {n for n, _, _ in closure + globs}:
-        # the converter consults the surroundings at the moment of each read (C01-D42); the model resolves statically
-        raise Unmodelled("a name of the surroundings is also assigned in the function")
     return sx("withenv", sx("closure", *[sx(n, _env_lit(k, v)) for n, k, v in closure]),
               sx("globals", *[sx(n, _env_lit(k, v)) for n, k, v in globs]), f)
 
